@@ -127,7 +127,7 @@ Proof.
     - rewrite Eh. assumption. }
   destruct a as [s a|s k n r sz|items|h|h i s|h i|h]; cbn in Hstep.
   - destruct (is_request a); [discriminate|]. eauto.
-  - destruct (nth_error (svcs g) s); [|discriminate]. destruct (kind_eqb _ _); [|discriminate]. eauto.
+  - destruct (nth_error (svcs g) s); [|discriminate]. destruct (_ && _); [|discriminate]. eauto.
   - inversion Hstep; subst. rewrite app_nil_r. eapply Inv1_quiet; eauto. cbn.
     intros h hd Hh N. exists hd. split; [|assumption]. rewrite nth_error_app1; [assumption|]. eapply nth_error_some_lt; eauto.
   - destruct (nth_error (hs g) h) as [hd|] eqn:Hh; [|discriminate].
@@ -226,7 +226,7 @@ Proof.
   intros Hstep HI. destruct a as [s a|s k n r sz|items|h|h i s|h i|h]; cbn in Hstep.
   - destruct (is_request a); [discriminate|].
     destruct (svc_act_props _ _ _ _ _ Hstep) as (Eh & _ & _ & _ & _ & _ & L). eapply InvE_store; eauto.
-  - destruct (nth_error (svcs g) s); [|discriminate]. destruct (kind_eqb _ _); [|discriminate].
+  - destruct (nth_error (svcs g) s); [|discriminate]. destruct (_ && _); [|discriminate].
     destruct (svc_act_props _ _ _ _ _ Hstep) as (Eh & _ & _ & _ & _ & _ & L). eapply InvE_store; eauto.
   - inversion Hstep; subst. intros h hd Hn. cbn in Hn.
     destruct (Nat.lt_ge_cases h (length (hs g))) as [L|L].
